@@ -1,6 +1,919 @@
 //! Property C13 — correspondence / expectation run (see DESIGN.md §5, C13).
+//!
+//! (a) `calculate_t` (hook) on a (field, λ, d, n) grid: against the model's `calcT` (= `tSpec` with
+//!     `q = |F|`) and, independently of the model, against exact big-integer evaluation of the
+//!     soundness bound at `t` and `t − 1`;
+//! (b) honest proofs of the three linear-code schemes: number and positions of the opened columns
+//!     (mirror structs for the crate-private proof / commitment types, `LogSponge` record);
+//! (c) the row encoders: hook `reed_solomon`, public `LinearEncode::encode` of the three schemes —
+//!     values against the model, linearity and declared length directly;
+//! (d) `compute_dimensions` (public `LinCodeParametersInfo`) against the integer model, plus the
+//!     factor-4 balancing inequality of C19 evaluated exactly.
+use crate::common::*;
+use crate::generic::{BrakedownPC, ColH, MTConfig, MlLigeroPC, SparseML, UniLigeroPC, UniPoly};
+use crate::wire::{self, Req, Val};
 use crate::Ctx;
+use ark_bls12_381::Fr;
+use ark_crypto_primitives::merkle_tree::{Config, Path};
+use ark_ff::{BigInteger, One, PrimeField, UniformRand, Zero};
+use ark_poly::{
+    DenseUVPolynomial, EvaluationDomain, GeneralEvaluationDomain, MultilinearExtension, Polynomial,
+};
+use ark_poly_commit::linear_codes::{
+    BrakedownPCParams, LigeroPCParams, LinCodeParametersInfo, LinearEncode, MultilinearBrakedown,
+    MultilinearLigero, UnivariateLigero,
+};
+use ark_poly_commit::{verif_hooks, Error, LabeledPolynomial, PolynomialCommitment};
+use ark_serialize::{CanonicalDeserialize, CanonicalSerialize};
+use ark_std::rand::RngCore;
+use num_bigint::BigUint;
+use std::collections::HashMap;
+
+// ------------------------------------------------------------------------------------------------
+// mirror structs (DESIGN §2.4): same field order as the crate-private types
+// ------------------------------------------------------------------------------------------------
+#[derive(CanonicalSerialize, CanonicalDeserialize)]
+struct MProofSingle {
+    paths: Vec<Path<MTConfig>>,
+    v: Vec<Fr>,
+    columns: Vec<Vec<Fr>>,
+}
+#[derive(CanonicalSerialize, CanonicalDeserialize)]
+struct MProof {
+    opening: MProofSingle,
+    well_formedness: Option<Vec<Fr>>,
+}
+#[derive(CanonicalSerialize, CanonicalDeserialize)]
+struct MMeta {
+    n_rows: usize,
+    n_cols: usize,
+    n_ext_cols: usize,
+}
+#[derive(CanonicalSerialize, CanonicalDeserialize)]
+struct MComm {
+    metadata: MMeta,
+    root: <MTConfig as Config>::InnerDigest,
+}
+#[derive(CanonicalSerialize, CanonicalDeserialize)]
+struct MSprsMat {
+    n: usize,
+    m: usize,
+    d: usize,
+    ind_ptr: Vec<usize>,
+    col_ind: Vec<usize>,
+    val: Vec<Fr>,
+}
+#[derive(CanonicalSerialize, CanonicalDeserialize)]
+struct MBrakedownParams {
+    sec_param: usize,
+    alpha: (usize, usize),
+    beta: (usize, usize),
+    rho_inv: (usize, usize),
+    base_len: usize,
+    n: usize,
+    m: usize,
+    m_ext: usize,
+    a_dims: Vec<(usize, usize, usize)>,
+    b_dims: Vec<(usize, usize, usize)>,
+    start: Vec<usize>,
+    end: Vec<usize>,
+    a_mats: Vec<MSprsMat>,
+    b_mats: Vec<MSprsMat>,
+    check_well_formedness: bool,
+    leaf_hash_param: (),
+    two_to_one_hash_param: (),
+    col_hash_params: (),
+}
+
+fn mirror<A: CanonicalSerialize, B: CanonicalDeserialize>(a: &A) -> Result<B, String> {
+    let mut buf = vec![];
+    a.serialize_compressed(&mut buf).map_err(|e| format!("serialize: {:?}", e))?;
+    let b = B::deserialize_compressed(&buf[..]).map_err(|e| format!("mirror deserialize: {:?}", e))?;
+    Ok(b)
+}
+
+// ------------------------------------------------------------------------------------------------
+// (a) calculate_t
+// ------------------------------------------------------------------------------------------------
+
+fn modulus_big<F: PrimeField>() -> BigUint {
+    BigUint::from_bytes_le(&F::MODULUS.to_bytes_le())
+}
+
+fn gcd(mut a: u128, mut b: u128) -> u128 {
+    while b != 0 {
+        let r = a % b;
+        a = b;
+        b = r;
+    }
+    a
+}
+
+/// Exact evaluation of `2·(1 − d/2)^t + n/q ≤ 2^(−λ)`, `d = d0/d1`, in big integers (independent of
+/// the Lean model: the fraction `(2d1 − d0)/(2d1)` is reduced first).
+struct Exact {
+    pows: HashMap<(u128, u128, usize), (BigUint, BigUint)>,
+}
+impl Exact {
+    fn new() -> Self {
+        Exact { pows: HashMap::new() }
+    }
+    /// requires `0 < d0 < 2·d1`
+    fn bound(&mut self, lam: usize, d0: usize, d1: usize, n: usize, q: &BigUint, t: usize) -> bool {
+        let b0 = 2 * d1 as u128;
+        let a0 = b0 - d0 as u128;
+        let g = gcd(a0, b0);
+        let (a, b) = (a0 / g, b0 / g);
+        if self.pows.len() > 4000 {
+            self.pows.clear();
+        }
+        let (at, bt) = self
+            .pows
+            .entry((a, b, t))
+            .or_insert_with(|| (BigUint::from(a).pow(t as u32), BigUint::from(b).pow(t as u32)));
+        // 2·a^t·q·2^λ + n·b^t·2^λ ≤ b^t·q
+        let lhs = ((&*at * q) << (lam + 1)) + ((&*bt * BigUint::from(n)) << lam);
+        let rhs = &*bt * q;
+        lhs <= rhs
+    }
+}
+
+fn usable(d0: usize, d1: usize) -> bool {
+    d1 > 0 && d0 > 0 && (d0 as u128) < 2 * d1 as u128
+}
+
+/// Compare the implementation's answer with the property (exact bound at `t`, `t − 1`).
+fn judge(
+    ex: &mut Exact,
+    lam: usize,
+    d0: usize,
+    d1: usize,
+    n: usize,
+    q: &BigUint,
+    out: &Result<usize, String>,
+) -> Option<(&'static str, String)> {
+    if !usable(d0, d1) {
+        return match out {
+            Ok(t) => Some(("unusable-distance-accepted", format!("returned t={} for the unusable distance {}/{}", t, d0, d1))),
+            Err(_) => None,
+        };
+    }
+    let exists = (BigUint::from(n) << lam) < *q; // a t exists iff n/q < 2^-λ
+    match out {
+        Err(e) => {
+            if exists {
+                Some(("usable-parameters-refused", format!("refused ({}) although the bound is satisfiable", e)))
+            } else {
+                None
+            }
+        }
+        Ok(t) => {
+            let t = *t;
+            if !exists {
+                return Some(("unusable-parameters-accepted", format!("returned t={} although no t satisfies the bound", t)));
+            }
+            if t > n {
+                return Some(("t-exceeds-codeword", format!("returned t={} > n={}", t, n)));
+            }
+            if t < n {
+                if !ex.bound(lam, d0, d1, n, q, t) {
+                    return Some(("t-too-small", format!("returned t={} but the bound fails at t", t)));
+                }
+                if t > 0 && ex.bound(lam, d0, d1, n, q, t - 1) {
+                    return Some(("t-too-large", format!("returned t={} but the bound already holds at t-1", t)));
+                }
+                None
+            } else {
+                // capped: the least t is ≥ n
+                if n > 0 && ex.bound(lam, d0, d1, n, q, n - 1) {
+                    return Some(("t-too-large", format!("returned the cap t=n={} but the bound already holds at n-1", n)));
+                }
+                None
+            }
+        }
+    }
+}
+
+fn n_grid(thorough: bool) -> Vec<usize> {
+    let mut v: Vec<usize> = (1..=64).collect();
+    if thorough {
+        v.extend(65..=4096);
+    }
+    for k in 0..=40u32 {
+        let p = 1usize << k;
+        v.push(p);
+        v.push(p + 1);
+        if p > 1 {
+            v.push(p - 1);
+        }
+    }
+    v.sort();
+    v.dedup();
+    v
+}
+
+fn lam_grid(thorough: bool, dense_band: bool) -> Vec<usize> {
+    if thorough {
+        return (1..=256).collect();
+    }
+    let mut v = vec![1, 2, 3, 5, 8, 13, 21, 34, 55, 64, 80, 89, 100, 128, 144, 160, 192];
+    let step = if dense_band { 1 } else { 4 };
+    let mut l = 204;
+    while l <= 256 {
+        v.push(l);
+        l += step;
+    }
+    v.push(256);
+    v.sort();
+    v.dedup();
+    v
+}
+
+fn calct_field<F: PrimeField>(ctx: &mut Ctx, fname: &str, dists: &[(usize, usize)], dense_band: bool) {
+    let q = modulus_big::<F>();
+    let qs = q.to_string();
+    let ns = n_grid(ctx.thorough);
+    let lams = lam_grid(ctx.thorough, dense_band);
+    let mut ex = Exact::new();
+    for &(d0, d1) in dists {
+        ex.pows.clear();
+        for &lam in &lams {
+            for &n in &ns {
+                let id = format!("C13/calct/{}/{}/{}-{}/{}", fname, lam, d0, d1, n);
+                if !ctx.selected(&id) {
+                    continue;
+                }
+                let out: Result<usize, String> = match guarded(|| verif_hooks::calculate_t::<F>(lam, (d0, d1), n)) {
+                    Ok(Ok(t)) => Ok(t),
+                    Ok(Err(e)) => Err(err_kind(&e)),
+                    Err(a) => Err(a),
+                };
+                let replay = format!(
+                    "# calculate_t::<{}>(sec_param={}, distance=({}, {}), codeword_len={}) = {:?}\n# field size q = {}\n# rerun: .build/cargo/debug/pcv-harness C13 --only {}\nc13.tspec lam={} d0={} d1={} n={} q={}\n",
+                    fname, lam, d0, d1, n, out, qs, id, lam, d0, d1, n, qs
+                );
+                if let Some((sig, what)) = judge(&mut ex, lam, d0, d1, n, &q, &out) {
+                    ctx.rep.expect_fail(
+                        &id,
+                        &format!("calculate_t/{}", sig),
+                        &format!("calculate_t::<{}>(λ={}, d={}/{}, n={}): {}", fname, lam, d0, d1, n, what),
+                        replay,
+                    );
+                }
+                let mut req = Req::new("c13.calct")
+                    .arg("lam", wire::nat(lam))
+                    .arg("d0", wire::nat(d0))
+                    .arg("d1", wire::nat(d1))
+                    .arg("n", wire::nat(n))
+                    .arg("q", Val::N(qs.clone()));
+                let outcome = match &out {
+                    Ok(t) => {
+                        req = req.arg("hint", wire::nat(*t));
+                        ImplOutcome::Ok(vec![("t".into(), Expect::Nat(*t))])
+                    }
+                    Err(e) => ImplOutcome::Refuse(e.clone()),
+                };
+                ctx.ses.ask(&id, req, outcome);
+                ctx.rep.count(&format!(
+                    "calct/{}/{}",
+                    fname,
+                    match &out {
+                        Ok(t) if *t == n => "capped",
+                        Ok(_) => "least",
+                        Err(_) => "refused",
+                    }
+                ));
+                ctx.rep.case(
+                    &format!("calculate_t::<{}>(λ={}, d={}/{}, n={}) = {:?}", fname, lam, d0, d1, n, out),
+                    Some(format!("calct/{}/{}/{}/{}/{}", fname, lam, d0, d1, n)),
+                );
+            }
+        }
+        ctx.flush_model(&format!("C13-calct-{}-{}-{}", fname, d0, d1));
+    }
+}
+
+fn part_a(ctx: &mut Ctx) {
+    // the crate's distances: Ligero (ρ⁻¹ − 1)/ρ⁻¹ for ρ⁻¹ ∈ {2,4,8}, Brakedown β/r = 61000/1521000
+    let mut dists: Vec<(usize, usize)> = vec![(1, 2), (3, 4), (7, 8), (61000, 1521000)];
+    let nrand = ctx.n(2, 8);
+    for i in 0..nrand {
+        let mut rng = rng_for(ctx.seed, "C13/dist", i as u64);
+        let d1 = range(&mut rng, 2, 64);
+        let d0 = range(&mut rng, 1, d1);
+        dists.push((d0, d1));
+    }
+    calct_field::<Fr>(ctx, "bls12-381-Fr", &dists, true);
+    let few = &dists[..if ctx.thorough { dists.len() } else { 4 }];
+    calct_field::<ark_bls12_377::Fr>(ctx, "bls12-377-Fr", few, false);
+    calct_field::<ark_ed_on_bls12_381::Fr>(ctx, "ed-on-bls12-381-Fr", few, false);
+    // unusable distances: d = 0, d = 2, d > 2, zero denominator
+    let saved_only = ctx.only.clone();
+    let bad: Vec<(usize, usize)> = vec![(0, 1), (0, 7), (2, 1), (8, 4), (3, 1), (1, 0), (0, 0)];
+    let q = modulus_big::<Fr>();
+    let qs = q.to_string();
+    let mut ex = Exact::new();
+    for &(d0, d1) in &bad {
+        for &lam in &[1usize, 80, 128, 256] {
+            for &n in &[1usize, 64, 1 << 20] {
+                let id = format!("C13/calct-unusable/{}/{}-{}/{}", lam, d0, d1, n);
+                if !ctx.selected(&id) {
+                    continue;
+                }
+                let out: Result<usize, String> = match guarded(|| verif_hooks::calculate_t::<Fr>(lam, (d0, d1), n)) {
+                    Ok(Ok(t)) => Ok(t),
+                    Ok(Err(e)) => Err(err_kind(&e)),
+                    Err(a) => Err(a),
+                };
+                if let Some((sig, what)) = judge(&mut ex, lam, d0, d1, n, &q, &out) {
+                    ctx.rep.expect_fail(
+                        &id,
+                        &format!("calculate_t/{}", sig),
+                        &format!("calculate_t(λ={}, d={}/{}, n={}): {}", lam, d0, d1, n, what),
+                        format!("# calculate_t::<Fr>({}, ({}, {}), {}) = {:?}\n# rerun: .build/cargo/debug/pcv-harness C13 --only {}\n", lam, d0, d1, n, out, id),
+                    );
+                }
+                let req = Req::new("c13.calct")
+                    .arg("lam", wire::nat(lam))
+                    .arg("d0", wire::nat(d0))
+                    .arg("d1", wire::nat(d1))
+                    .arg("n", wire::nat(n))
+                    .arg("q", Val::N(qs.clone()));
+                let outcome = match &out {
+                    Ok(t) => ImplOutcome::Ok(vec![("t".into(), Expect::Nat(*t))]),
+                    Err(e) => ImplOutcome::Refuse(e.clone()),
+                };
+                ctx.ses.ask(&id, req, outcome);
+                ctx.rep.count("calct/unusable-distance");
+                ctx.rep.case(
+                    &format!("calculate_t(λ={}, d={}/{}, n={}) = {:?}", lam, d0, d1, n, out),
+                    Some(format!("calct-unusable/{}/{}/{}/{}", lam, d0, d1, n)),
+                );
+            }
+        }
+    }
+    ctx.only = saved_only;
+    ctx.flush_model("C13-calct-unusable");
+}
+
+// ------------------------------------------------------------------------------------------------
+// (b) honest proofs: number and positions of the opened columns
+// ------------------------------------------------------------------------------------------------
+
+fn fold_index(bytes: &[u8], n: usize) -> usize {
+    // exact (no usize overflow): big-endian fold mod n
+    let mut acc: u128 = 0;
+    for &b in bytes {
+        acc = ((acc << 8) + b as u128) % (n as u128);
+    }
+    acc as usize
+}
+
+fn bytes_val(bs: &[Vec<u8>]) -> Val {
+    Val::L(bs.iter().map(|b| Val::L(b.iter().map(|x| wire::nat(*x as usize)).collect())).collect())
+}
+
+fn honest_open<P, PC>(
+    ctx: &mut Ctx,
+    name: &str,
+    case: usize,
+    desc: &str,
+    max_degree: usize,
+    num_vars: Option<usize>,
+    polys: Vec<P>,
+    point: P::Point,
+) where
+    P: Polynomial<Fr>,
+    P::Point: Clone,
+    PC: PolynomialCommitment<Fr, P, Error = Error>,
+    PC::CommitterKey: LinCodeParametersInfo<MTConfig, ColH>,
+    PC::Proof: CanonicalSerialize,
+{
+    let id = format!("C13/open/{}/{}", name, case);
+    if !ctx.selected(&id) {
+        return;
+    }
+    let mut rng = rng_for(ctx.seed, &format!("C13/open/{}", name), case as u64);
+    let replay = |extra: &str| {
+        format!(
+            "# scheme: {}\n# case: {} ({})\n# {}\n# rerun: .build/cargo/debug/pcv-harness C13 --only {}\n",
+            name, id, desc, extra, id
+        )
+    };
+    let sig = |s: &str| format!("{}/{}", name, s);
+    let values: Vec<Fr> = polys.iter().map(|p| p.evaluate(&point)).collect();
+    let lps: Vec<LabeledPolynomial<Fr, P>> = polys
+        .into_iter()
+        .enumerate()
+        .map(|(i, p)| LabeledPolynomial::new(format!("p{}", i), p, None, None))
+        .collect();
+    let res = guarded(|| -> Result<_, Error> {
+        let pp = PC::setup(max_degree, num_vars, &mut rng)?;
+        let (ck, vk) = PC::trim(&pp, max_degree, 0, None)?;
+        let (comms, states) = PC::commit(&ck, &lps, None)?;
+        let mut sponge = LogSponge::fresh();
+        let proof = PC::open(&ck, &lps, &comms, &point, &mut sponge, &states, None)?;
+        let mut vsponge = LogSponge::fresh();
+        let acc = PC::check(&vk, &comms, &point, values.clone(), &proof, &mut vsponge, None)?;
+        Ok((ck, comms, sponge, proof, vsponge, acc))
+    });
+    let (ck, comms, sponge, proof, vsponge, acc) = match res {
+        Ok(Ok(x)) => x,
+        Ok(Err(e)) => {
+            ctx.rep.expect_fail(&id, &sig("honest-run-refused"), &format!("setup/commit/open/check refused: {:?}", e), replay("refused"));
+            ctx.rep.case(desc, None);
+            return;
+        }
+        Err(a) => {
+            ctx.rep.expect_fail(&id, &sig("honest-run-aborted"), &format!("setup/commit/open/check aborted: {}", a), replay("aborted"));
+            ctx.rep.case(desc, None);
+            return;
+        }
+    };
+    if !acc {
+        ctx.rep.expect_fail(&id, &sig("honest-rejected"), "honest opening rejected", replay("check != Ok(true)"));
+    }
+    let mproofs: Vec<MProof> = match mirror(&proof) {
+        Ok(x) => x,
+        Err(e) => {
+            ctx.rep.expect_fail(&id, &sig("mirror-failed"), &e, replay("proof mirror"));
+            return;
+        }
+    };
+    let sec = ck.sec_param();
+    let dist = ck.distance();
+    let squeezes = sponge.squeezed_bytes();
+    if vsponge.squeezed_bytes() != squeezes {
+        ctx.rep.expect_fail(&id, &sig("verifier-squeezes-differ"), "the verifier derived other byte strings than the prover", replay("sponge records differ"));
+    }
+    if mproofs.len() != comms.len() {
+        ctx.rep.expect_fail(&id, &sig("proof-count"), &format!("{} proofs for {} commitments", mproofs.len(), comms.len()), replay("proof array length"));
+    }
+    let qs = wire::modulus_decimal::<Fr>();
+    let mut cursor = 0usize;
+    for (i, (mp, lc)) in mproofs.iter().zip(comms.iter()).enumerate() {
+        let mc: MComm = match mirror(lc.commitment()) {
+            Ok(x) => x,
+            Err(e) => {
+                ctx.rep.expect_fail(&id, &sig("mirror-failed"), &e, replay("commitment mirror"));
+                return;
+            }
+        };
+        let _ = &mc.root;
+        let n_ext = mc.metadata.n_ext_cols;
+        let t = match verif_hooks::calculate_t::<Fr>(sec, dist, n_ext) {
+            Ok(t) => t,
+            Err(e) => {
+                ctx.rep.expect_fail(&id, &sig("t-refused"), &format!("calculate_t refused the scheme's own parameters: {:?}", e), replay("calculate_t Err"));
+                return;
+            }
+        };
+        let idxs: Vec<usize> = mp.opening.paths.iter().map(|p| p.leaf_index).collect();
+        if mp.opening.columns.len() != t || mp.opening.paths.len() != t {
+            ctx.rep.expect_fail(
+                &id,
+                &sig("column-count"),
+                &format!("poly {}: {} columns / {} paths opened, t(n_ext={}) = {}", i, mp.opening.columns.len(), mp.opening.paths.len(), n_ext, t),
+                replay("number of opened columns != t"),
+            );
+        }
+        if mp.opening.columns.iter().any(|c| c.len() != mc.metadata.n_rows) || mp.opening.v.len() != mc.metadata.n_cols {
+            ctx.rep.expect_fail(&id, &sig("shape"), "column height != n_rows or |v| != n_cols", replay("shape"));
+        }
+        if idxs.iter().any(|&j| j >= n_ext) {
+            ctx.rep.expect_fail(&id, &sig("index-out-of-range"), &format!("leaf index outside the codeword (n_ext={}): {:?}", n_ext, idxs), replay("index range"));
+        }
+        let hi = (cursor + t).min(squeezes.len());
+        let mine: Vec<Vec<u8>> = squeezes[cursor.min(hi)..hi].to_vec();
+        cursor += t;
+        let nb = verif_hooks::get_num_bytes(n_ext);
+        let derived: Vec<usize> = mine.iter().map(|b| fold_index(b, n_ext)).collect();
+        if mine.len() != t || mine.iter().any(|b| b.len() != nb) || derived != idxs {
+            ctx.rep.expect_fail(
+                &id,
+                &sig("index-not-from-transcript"),
+                &format!("poly {}: leaf indices {:?} are not the folds {:?} of the {} squeezed {}-byte strings", i, idxs, derived, mine.len(), nb),
+                replay("positions vs sponge record"),
+            );
+        }
+        ctx.ses.ask(
+            &format!("{}/idx{}", id, i),
+            Req::new("c13.indices").arg("n", wire::nat(n_ext)).arg("bytes", bytes_val(&mine)),
+            ImplOutcome::Ok(vec![("idx".into(), Expect::Nats(idxs.clone())), ("nbytes".into(), Expect::Nat(nb))]),
+        );
+        ctx.ses.ask(
+            &format!("{}/t{}", id, i),
+            Req::new("c13.calct")
+                .arg("lam", wire::nat(sec))
+                .arg("d0", wire::nat(dist.0))
+                .arg("d1", wire::nat(dist.1))
+                .arg("n", wire::nat(n_ext))
+                .arg("q", Val::N(qs.clone()))
+                .arg("hint", wire::nat(t)),
+            ImplOutcome::Ok(vec![("t".into(), Expect::Nat(mp.opening.columns.len()))]),
+        );
+        ctx.rep.count(&format!("open/{}/{}", name, if t == n_ext { "t-capped" } else { "t-least" }));
+        ctx.rep.case(
+            &format!("{} {} poly{} n_rows={} n_cols={} n_ext={} t={}", name, desc, i, mc.metadata.n_rows, mc.metadata.n_cols, n_ext, t),
+            Some(format!("open/{}/{}/{}/{}", name, mc.metadata.n_rows, n_ext, t)),
+        );
+    }
+    if cursor != squeezes.len() {
+        ctx.rep.expect_fail(&id, &sig("extra-squeezes"), &format!("{} byte squeezes recorded, {} consumed by the openings", squeezes.len(), cursor), replay("squeeze count"));
+    }
+}
+
+fn rand_sparse_ml(rng: &mut Rng, nv: usize) -> SparseML {
+    SparseML::rand(nv, rng)
+}
+
+fn part_b(ctx: &mut Ctx) {
+    let uni_degs: Vec<usize> = if ctx.thorough {
+        vec![0, 1, 2, 3, 7, 8, 15, 16, 31, 63, 64, 100, 255, 256, 500, 1023, 1024, 2000, 4095, 10000, 40000]
+    } else {
+        vec![0, 1, 2, 3, 7, 8, 16, 31, 64, 100, 255, 256, 1023, 2000, 6000]
+    };
+    for (c, &d) in uni_degs.iter().enumerate() {
+        let mut rng = rng_for(ctx.seed, "C13/open/polys-uni", c as u64);
+        let k = 1 + c % 2;
+        let polys: Vec<UniPoly> = (0..k).map(|j| UniPoly::rand(if j == 0 { d } else { d / 2 }, &mut rng)).collect();
+        let z = Fr::rand(&mut rng);
+        honest_open::<UniPoly, UniLigeroPC>(ctx, "uni-ligero", c, &format!("degree={} polys={}", d, k), d.max(1), None, polys, z);
+    }
+    let ml_nv: Vec<usize> = if ctx.thorough { (1..=15).collect() } else { (1..=12).collect() };
+    for (c, &nv) in ml_nv.iter().enumerate() {
+        let mut rng = rng_for(ctx.seed, "C13/open/polys-ml", c as u64);
+        let k = 1 + c % 2;
+        let polys: Vec<SparseML> = (0..k).map(|_| rand_sparse_ml(&mut rng, nv)).collect();
+        let z: Vec<Fr> = (0..nv).map(|_| Fr::rand(&mut rng)).collect();
+        honest_open::<SparseML, MlLigeroPC>(ctx, "ml-ligero", c, &format!("nv={} polys={}", nv, k), 1, Some(nv), polys, z);
+    }
+    let bd_nv: Vec<usize> = if ctx.thorough { (2..=15).collect() } else { (2..=12).collect() };
+    for (c, &nv) in bd_nv.iter().enumerate() {
+        let mut rng = rng_for(ctx.seed, "C13/open/polys-bd", c as u64);
+        let k = 1 + c % 2;
+        let polys: Vec<SparseML> = (0..k).map(|_| rand_sparse_ml(&mut rng, nv)).collect();
+        let z: Vec<Fr> = (0..nv).map(|_| Fr::rand(&mut rng)).collect();
+        honest_open::<SparseML, BrakedownPC>(ctx, "brakedown", c, &format!("nv={} polys={}", nv, k), 1, Some(nv), polys, z);
+    }
+    // the index derivation itself, on codeword lengths no proof can reach
+    let ncase = ctx.n(60, 600);
+    for c in 0..ncase {
+        let id = format!("C13/indices/{}", c);
+        if !ctx.selected(&id) {
+            continue;
+        }
+        let mut rng = rng_for(ctx.seed, "C13/indices", c as u64);
+        let n = match c % 6 {
+            0 => range(&mut rng, 1, 300),
+            1 => 1usize << range(&mut rng, 0, 40),
+            2 => (1usize << range(&mut rng, 1, 40)) - 1,
+            3 => (1usize << range(&mut rng, 0, 40)) + 1,
+            4 => (rng.next_u64() >> range(&mut rng, 1, 60)) as usize + 1,
+            _ => range(&mut rng, 255, 70000),
+        };
+        let t = range(&mut rng, 0, 12);
+        let mut sp = LogSponge::fresh();
+        sp.absorb_seed(c as u64);
+        let out = guarded(|| verif_hooks::get_indices_from_sponge(n, t, &mut sp));
+        let idxs = match out {
+            Ok(Ok(v)) => v,
+            other => {
+                ctx.rep.expect_fail(&id, "indices/refused", &format!("get_indices_from_sponge({}, {}) failed: {:?}", n, t, other.map(|r| r.map_err(|e| err_kind(&e)))), format!("# get_indices_from_sponge(n={}, t={})\n# rerun: .build/cargo/debug/pcv-harness C13 --only {}\n", n, t, id));
+                continue;
+            }
+        };
+        let sq = sp.squeezed_bytes();
+        let nb = verif_hooks::get_num_bytes(n);
+        let derived: Vec<usize> = sq.iter().map(|b| fold_index(b, n)).collect();
+        if idxs.len() != t || sq.len() != t || derived != idxs || idxs.iter().any(|&i| i >= n) || sq.iter().any(|b| b.len() != nb) {
+            ctx.rep.expect_fail(
+                &id,
+                "indices/not-in-range-or-not-from-transcript",
+                &format!("n={} t={}: indices {:?}, folds of the squeezed bytes {:?}", n, t, idxs, derived),
+                format!("# get_indices_from_sponge(n={}, t={})\n# rerun: .build/cargo/debug/pcv-harness C13 --only {}\n", n, t, id),
+            );
+        }
+        ctx.ses.ask(
+            &id,
+            Req::new("c13.indices").arg("n", wire::nat(n)).arg("bytes", bytes_val(&sq)),
+            ImplOutcome::Ok(vec![("idx".into(), Expect::Nats(idxs)), ("nbytes".into(), Expect::Nat(nb))]),
+        );
+        ctx.rep.count(&format!("indices/bytes-{}", nb));
+        ctx.rep.case(&format!("get_indices_from_sponge(n={}, t={})", n, t), Some(format!("indices/{}/{}", n, t)));
+    }
+    ctx.flush_model("C13-open");
+}
+
+// ------------------------------------------------------------------------------------------------
+// (c) encoders
+// ------------------------------------------------------------------------------------------------
+
+fn lin_comb(a: Fr, x: &[Fr], b: Fr, y: &[Fr]) -> Vec<Fr> {
+    x.iter().zip(y).map(|(u, v)| a * u + b * v).collect()
+}
+
+/// One encoder `enc` on messages of length `m`: values against the RS model, linearity, length.
+fn rs_case(
+    ctx: &mut Ctx,
+    id: &str,
+    what: &str,
+    m: usize,
+    rho_inv: usize,
+    enc: &dyn Fn(&[Fr]) -> Result<Vec<Fr>, String>,
+) {
+    if !ctx.selected(id) {
+        return;
+    }
+    let mut rng = rng_for(ctx.seed, id, 0);
+    let x: Vec<Fr> = (0..m).map(|_| Fr::rand(&mut rng)).collect();
+    let y: Vec<Fr> = (0..m).map(|i| if i % 3 == 2 { Fr::zero() } else { Fr::rand(&mut rng) }).collect();
+    let (a, b) = (Fr::rand(&mut rng), Fr::rand(&mut rng));
+    let replay = format!(
+        "# {} m={} rho_inv={}\n# x={}\n# y={}\n# a={} b={}\n# rerun: .build/cargo/debug/pcv-harness C13 --only {}\n",
+        what, m, rho_inv, wire::fes(&x), wire::fes(&y), wire::fe(&a), wire::fe(&b), id
+    );
+    let (ex, ey, ez) = match (enc(&x), enc(&y), enc(&lin_comb(a, &x, b, &y))) {
+        (Ok(p), Ok(q), Ok(r)) => (p, q, r),
+        other => {
+            ctx.rep.expect_fail(id, &format!("{}/encode-refused", what), &format!("encoder refused a message of the declared length: {:?}", other.0.err().or(other.1.err()).or(other.2.err())), replay);
+            return;
+        }
+    };
+    let dom = GeneralEvaluationDomain::<Fr>::new(m * rho_inv);
+    let declared = (m * rho_inv).next_power_of_two();
+    if ex.len() != declared || ey.len() != declared || ez.len() != declared {
+        ctx.rep.expect_fail(id, &format!("{}/length", what), &format!("codeword length {} != declared {}", ex.len(), declared), replay.clone());
+    }
+    if ez != lin_comb(a, &ex, b, &ey) {
+        ctx.rep.expect_fail(id, &format!("{}/not-linear", what), "E(a·x + b·y) != a·E(x) + b·E(y)", replay.clone());
+    }
+    if let Some(dom) = dom {
+        let omega = dom.group_gen();
+        ctx.ses.ask(
+            id,
+            Req::new("c13.rs").arg("msg", wire::fes(&x)).arg("omega", wire::fe(&omega)).arg("len", wire::nat(dom.size())),
+            ImplOutcome::Ok(vec![("cw".into(), Expect::Fes(ex.clone())), ("len".into(), Expect::Nat(ex.len()))]),
+        );
+    }
+    ctx.rep.count(&format!("encode/{}", what));
+    ctx.rep.case(&format!("{} m={} rho_inv={} -> {}", what, m, rho_inv, ex.len()), Some(format!("encode/{}/{}/{}", what, m, rho_inv)));
+}
+
+fn sprs_val(m: &MSprsMat) -> Val {
+    Val::L(
+        (0..m.m)
+            .map(|j| {
+                Val::L(
+                    (m.ind_ptr[j]..m.ind_ptr[j + 1])
+                        .map(|k| Val::L(vec![wire::nat(m.col_ind[k]), wire::fe(&m.val[k])]))
+                        .collect(),
+                )
+            })
+            .collect(),
+    )
+}
+
+type BdCode = MultilinearBrakedown<Fr, MTConfig, SparseML, ColH>;
+type BdParams = BrakedownPCParams<Fr, MTConfig, ColH>;
+
+fn brakedown_case(ctx: &mut Ctx, c: usize, poly_len: usize) {
+    let id = format!("C13/encode/brakedown/{}", c);
+    if !ctx.selected(&id) {
+        return;
+    }
+    let mut rng = rng_for(ctx.seed, "C13/encode/brakedown", c as u64);
+    let pp: BdParams = match guarded(|| BdParams::default(&mut rng, poly_len, c % 2 == 0, (), (), ())) {
+        Ok(p) => p,
+        Err(a) => {
+            ctx.rep.expect_fail(&id, "brakedown/default-params-aborted", &format!("BrakedownPCParams::default({}) aborted: {}", poly_len, a), format!("# poly_len={}\n# rerun: .build/cargo/debug/pcv-harness C13 --only {}\n", poly_len, id));
+            return;
+        }
+    };
+    let mp: MBrakedownParams = match mirror(&pp) {
+        Ok(x) => x,
+        Err(e) => {
+            ctx.rep.expect_fail(&id, "brakedown/mirror-failed", &e, String::new());
+            return;
+        }
+    };
+    let _ = (mp.sec_param, mp.alpha, mp.beta, mp.rho_inv, mp.base_len, mp.n, mp.check_well_formedness);
+    let _ = (&mp.leaf_hash_param, &mp.two_to_one_hash_param, &mp.col_hash_params);
+    let m = mp.m;
+    let x: Vec<Fr> = (0..m).map(|_| Fr::rand(&mut rng)).collect();
+    let y: Vec<Fr> = (0..m).map(|i| if i % 4 == 1 { Fr::zero() } else { Fr::rand(&mut rng) }).collect();
+    let (a, b) = (Fr::rand(&mut rng), Fr::rand(&mut rng));
+    let enc = |v: &[Fr]| -> Result<Vec<Fr>, String> {
+        match guarded(|| BdCode::encode(v, &pp)) {
+            Ok(Ok(w)) => Ok(w),
+            Ok(Err(e)) => Err(err_kind(&e)),
+            Err(a) => Err(a),
+        }
+    };
+    let replay = format!(
+        "# brakedown encode poly_len={} m={} m_ext={} levels={}\n# x={}\n# y={}\n# a={} b={}\n# rerun: .build/cargo/debug/pcv-harness C13 --only {}\n",
+        poly_len, m, mp.m_ext, mp.a_dims.len(), wire::fes(&x), wire::fes(&y), wire::fe(&a), wire::fe(&b), id
+    );
+    let base = |msg: &[Fr]| {
+        Req::new("c13.brakedown")
+            .arg("m", wire::nat(mp.m))
+            .arg("mext", wire::nat(mp.m_ext))
+            .arg("adims", Val::L(mp.a_dims.iter().map(|d| wire::nats(&[d.0, d.1])).collect()))
+            .arg("bdims", Val::L(mp.b_dims.iter().map(|d| wire::nats(&[d.0, d.1])).collect()))
+            .arg("start", wire::nats(&mp.start))
+            .arg("stop", wire::nats(&mp.end))
+            .arg("amats", Val::L(mp.a_mats.iter().map(sprs_val).collect()))
+            .arg("bmats", Val::L(mp.b_mats.iter().map(sprs_val).collect()))
+            .arg("msg", wire::fes(msg))
+    };
+    match (enc(&x), enc(&y), enc(&lin_comb(a, &x, b, &y))) {
+        (Ok(ex), Ok(ey), Ok(ez)) => {
+            if ex.len() != mp.m_ext || ez.len() != mp.m_ext {
+                ctx.rep.expect_fail(&id, "brakedown/length", &format!("codeword length {} != m_ext {}", ex.len(), mp.m_ext), replay.clone());
+            }
+            if ez != lin_comb(a, &ex, b, &ey) {
+                ctx.rep.expect_fail(&id, "brakedown/not-linear", "E(a·x + b·y) != a·E(x) + b·E(y)", replay.clone());
+            }
+            ctx.ses.ask(&id, base(&x), ImplOutcome::Ok(vec![("cw".into(), Expect::Fes(ex.clone())), ("len".into(), Expect::Nat(ex.len()))]));
+        }
+        other => {
+            ctx.rep.expect_fail(&id, "brakedown/encode-refused", &format!("encoder refused a message of length m: {:?}", other.0.err().or(other.1.err()).or(other.2.err())), replay.clone());
+        }
+    }
+    // wrong lengths are refused (EncodingError), by the model too
+    for bad in [m + 1, m.saturating_sub(1)] {
+        let z: Vec<Fr> = (0..bad).map(|_| Fr::one()).collect();
+        let out = enc(&z);
+        if out.is_ok() {
+            ctx.rep.expect_fail(&id, "brakedown/wrong-length-accepted", &format!("message of length {} accepted (m = {})", bad, m), replay.clone());
+        }
+        ctx.ses.ask(
+            &format!("{}/len{}", id, bad),
+            base(&z),
+            match out {
+                Ok(w) => ImplOutcome::Ok(vec![("cw".into(), Expect::Fes(w))]),
+                Err(e) => ImplOutcome::Refuse(e),
+            },
+        );
+    }
+    ctx.rep.count(&format!("encode/brakedown/levels-{}", mp.a_dims.len()));
+    ctx.rep.case(
+        &format!("brakedown encode poly_len={} m={} m_ext={} levels={}", poly_len, m, mp.m_ext, mp.a_dims.len()),
+        Some(format!("encode/brakedown/{}/{}", m, mp.a_dims.len())),
+    );
+}
+
+fn part_c(ctx: &mut Ctx) {
+    let ms: Vec<usize> = if ctx.thorough { vec![1, 2, 3, 4, 5, 7, 8, 16, 31, 32, 64, 100, 128] } else { vec![1, 2, 3, 4, 5, 8, 16, 32, 33] };
+    for &m in &ms {
+        for &rho in &[1usize, 2, 3, 4, 8] {
+            let id = format!("C13/encode/rs-hook/{}/{}", m, rho);
+            rs_case(ctx, &id, "reed_solomon", m, rho, &|v: &[Fr]| guarded(|| verif_hooks::reed_solomon::<Fr>(v, rho)));
+        }
+    }
+    type UL = UnivariateLigero<Fr, MTConfig, UniPoly, ColH>;
+    type ML = MultilinearLigero<Fr, MTConfig, SparseML, ColH>;
+    let mut rng = rng_for(ctx.seed, "C13/encode/setup", 0);
+    let upp = <UL as LinearEncode<Fr, MTConfig, UniPoly, ColH>>::setup(8, None, &mut rng, (), (), ());
+    let mpp = <ML as LinearEncode<Fr, MTConfig, SparseML, ColH>>::setup(1, Some(3), &mut rng, (), (), ());
+    let urho = upp.distance().1;
+    let mrho = mpp.distance().1;
+    for &m in &ms {
+        let id = format!("C13/encode/uni-ligero/{}", m);
+        rs_case(ctx, &id, "uni-ligero-encode", m, urho, &|v: &[Fr]| match guarded(|| UL::encode(v, &upp)) {
+            Ok(Ok(w)) => Ok(w),
+            Ok(Err(e)) => Err(err_kind(&e)),
+            Err(a) => Err(a),
+        });
+        let id = format!("C13/encode/ml-ligero/{}", m);
+        rs_case(ctx, &id, "ml-ligero-encode", m, mrho, &|v: &[Fr]| match guarded(|| ML::encode(v, &mpp)) {
+            Ok(Ok(w)) => Ok(w),
+            Ok(Err(e)) => Err(err_kind(&e)),
+            Err(a) => Err(a),
+        });
+    }
+    // other rates through the public constructor
+    for &rho in &[2usize, 8] {
+        let pp = LigeroPCParams::<Fr, MTConfig, ColH>::new(100, rho, true, (), (), ());
+        for &m in &[4usize, 16] {
+            let id = format!("C13/encode/uni-ligero-rho{}/{}", rho, m);
+            rs_case(ctx, &id, "uni-ligero-encode", m, rho, &|v: &[Fr]| match guarded(|| UL::encode(v, &pp)) {
+                Ok(Ok(w)) => Ok(w),
+                Ok(Err(e)) => Err(err_kind(&e)),
+                Err(a) => Err(a),
+            });
+        }
+    }
+    ctx.flush_model("C13-rs");
+    // Brakedown: poly_len = 2^nv; m ≥ 30 gives at least one recursion level, m ≥ 169 two
+    let nvs: Vec<usize> = if ctx.thorough { vec![1, 2, 4, 6, 7, 8, 9, 10, 11, 12, 13] } else { vec![1, 3, 6, 7, 9, 10] };
+    for (c, &nv) in nvs.iter().enumerate() {
+        brakedown_case(ctx, c, 1usize << nv);
+        ctx.flush_model(&format!("C13-brakedown-{}", c));
+    }
+}
+
+// ------------------------------------------------------------------------------------------------
+// (d) compute_dimensions
+// ------------------------------------------------------------------------------------------------
+
+fn ceil_div(a: usize, b: usize) -> usize {
+    (a + b - 1) / b
+}
+
+fn dims_case(ctx: &mut Ctx, id: &str, what: &str, n_poly: usize, t: usize, got: (usize, usize)) {
+    let (n, m) = got;
+    let replay = format!(
+        "# {} N={} t={} -> (n, m) = ({}, {})\n# rerun: .build/cargo/debug/pcv-harness C13 --only {}\nc13.dimensions N={} t={}\n",
+        what, n_poly, t, n, m, id, n_poly, t
+    );
+    if n * m < n_poly || !n.is_power_of_two() || (m > 0 && (m - 1) * n >= n_poly) {
+        ctx.rep.expect_fail(id, &format!("{}/dimensions-do-not-fit", what), &format!("N={} t={}: n={} m={}", n_poly, t, n, m), replay.clone());
+    }
+    // C19 balancing: cost(n) ≤ 4·min over power-of-two row counts, c ∈ {1, 2}
+    for c in [1usize, 2] {
+        let cost = |np: usize| t * np + c * ceil_div(n_poly, np);
+        let mut best = usize::MAX;
+        let mut np = 1usize;
+        while np <= 2 * n_poly.next_power_of_two() {
+            best = best.min(cost(np));
+            np *= 2;
+        }
+        if cost(n) > 4 * best {
+            ctx.rep.expect_fail(id, &format!("{}/dimensions-unbalanced", what), &format!("N={} t={} c={}: cost(n={}) = {} > 4·{}", n_poly, t, c, n, cost(n), best), replay.clone());
+        }
+    }
+    ctx.ses.ask(
+        id,
+        Req::new("c13.dimensions").arg("N", wire::nat(n_poly)).arg("t", wire::nat(t)),
+        ImplOutcome::Ok(vec![("n".into(), Expect::Nat(n)), ("m".into(), Expect::Nat(m))]),
+    );
+    ctx.rep.count(&format!("dimensions/{}", what));
+    ctx.rep.case(&format!("{} compute_dimensions N={} t={} -> ({}, {})", what, n_poly, t, n, m), Some(format!("dims/{}/{}/{}", what, n_poly, t)));
+}
+
+fn part_d(ctx: &mut Ctx) {
+    let mut ladder: Vec<usize> = (1..=64).collect();
+    let mut x = 64f64;
+    while x < 65536.0 {
+        x *= if ctx.thorough { 1.07 } else { 1.37 };
+        ladder.push((x as usize).min(65536));
+    }
+    for k in 6..=16u32 {
+        let p = 1usize << k;
+        ladder.extend([p - 1, p, p + 1]);
+    }
+    if ctx.thorough {
+        for k in 17..=30u32 {
+            let p = 1usize << k;
+            ladder.extend([p - 1, p, p + 1]);
+        }
+    }
+    ladder.sort();
+    ladder.dedup();
+    for &(sec, rho) in &[(128usize, 4usize), (128, 2), (80, 2), (100, 8)] {
+        let pp = LigeroPCParams::<Fr, MTConfig, ColH>::new(sec, rho, true, (), (), ());
+        for &n_poly in &ladder {
+            let id = format!("C13/dims/ligero-{}-{}/{}", sec, rho, n_poly);
+            if !ctx.selected(&id) {
+                continue;
+            }
+            let t = match verif_hooks::calculate_t::<Fr>(sec, pp.distance(), n_poly) {
+                Ok(t) => t,
+                Err(_) => continue,
+            };
+            match guarded(|| pp.compute_dimensions(n_poly)) {
+                Ok(got) => dims_case(ctx, &id, "ligero", n_poly, t, got),
+                Err(a) => ctx.rep.expect_fail(&id, "ligero/compute-dimensions-aborted", &format!("compute_dimensions({}) aborted: {}", n_poly, a), format!("# sec={} rho_inv={} N={}\n", sec, rho, n_poly)),
+            }
+        }
+    }
+    let top = if ctx.thorough { 18 } else { 14 };
+    for nv in 0..=top {
+        let n_poly = 1usize << nv;
+        let id = format!("C13/dims/brakedown/{}", n_poly);
+        if !ctx.selected(&id) {
+            continue;
+        }
+        let mut rng = rng_for(ctx.seed, "C13/dims/brakedown", nv as u64);
+        let t = match verif_hooks::calculate_t::<Fr>(128, (61 * 1000, 1000 * 1521), n_poly) {
+            Ok(t) => t,
+            Err(_) => continue,
+        };
+        match guarded(|| BdParams::default(&mut rng, n_poly, true, (), (), ()).compute_dimensions(n_poly)) {
+            Ok(got) => dims_case(ctx, &id, "brakedown", n_poly, t, got),
+            Err(a) => ctx.rep.expect_fail(&id, "brakedown/default-params-aborted", &format!("BrakedownPCParams::default({}) aborted: {}", n_poly, a), format!("# N={}\n", n_poly)),
+        }
+    }
+    ctx.flush_model("C13-dims");
+}
 
 pub fn run(ctx: &mut Ctx) {
-    let _ = ctx;
+    part_a(ctx);
+    part_b(ctx);
+    part_c(ctx);
+    part_d(ctx);
+    ctx.rep.notes.push(
+        "calculate_t is f64 code: its equality with tSpec(q = |F|) is established on the grid (model) and by exact big-integer evaluation of the bound at t and t-1 (harness), not by a theorem".into(),
+    );
 }
